@@ -94,6 +94,9 @@ type clientCase struct {
 	FromUDP    bool     `json:"from_udp"`
 	ClientAddr string   `json:"client_addr"` // "" = invalid
 	Up         upSpec   `json:"upstream"`
+	// Inject: OPT record the harness plugin $inject appends in place to
+	// qCtx.R().Extra right after the terminal (nil = nothing injected).
+	Inject *optSpec `json:"harness_injected_opt,omitempty"`
 }
 
 func (c *clientCase) queryBytes() []byte {
@@ -192,6 +195,7 @@ type chainDesc struct {
 	RealForward bool   `json:"real_forward"`
 	FwdQuick    bool   `json:"fwd_quick_setup,omitempty"`
 	MultiOpt    bool   `json:"upstream_multi_opt_class"` // hostile upstream: replies may carry two OPT records
+	Inject      bool   `json:"inject_plugin_after_terminal"`
 }
 
 func (c *chainDesc) hasCache() bool {
@@ -222,6 +226,9 @@ func (c *chainDesc) shape() string {
 		s = append(s, "FWD")
 	} else {
 		s = append(s, "TERM:"+c.TermMode)
+	}
+	if c.Inject {
+		s = append(s, "INJ")
 	}
 	for _, e := range c.Post {
 		s = append(s, e.sig())
@@ -582,6 +589,10 @@ func genCase(r *rand.Rand, ch *chainDesc, idx, phase int, names []string) *clien
 	if !ch.RealForward && r.Intn(40) == 0 {
 		u.TC = true
 	}
+	if ch.Inject && r.Intn(3) == 0 {
+		o := genUpOpt(r, true)
+		c.Inject = &o
+	}
 	return c
 }
 
@@ -667,6 +678,11 @@ func genChain(seed int64, idx, ncases int, realForward bool, multiOpt bool) *cha
 	}
 	if r.Intn(3) == 0 {
 		ch.Post = append(ch.Post, elem{Kind: "ttl", TTLSpec: []string{"9", "60-120", "0-3"}[r.Intn(3)]})
+	}
+	ch.Inject = r.Intn(4) == 0
+	if ch.Inject && len(ch.Post) == 0 && r.Intn(3) != 0 {
+		// give the TTL helpers something to meet
+		ch.Post = append(ch.Post, elem{Kind: "ttl", TTLSpec: []string{"9", "60-120", "0-3", "3000-4000"}[r.Intn(4)]})
 	}
 	return ch
 }
